@@ -349,22 +349,30 @@ class State:
         for cheap feasibility pruning).  Re-synchronised lazily with `pc`."""
         s = getattr(self, '_ps', None)
         ids = getattr(self, '_ps_ids', None)
-        n = len(self.pc)
-        ok = s is not None and len(ids) <= n
-        if ok:
-            for k, i in enumerate(ids):
-                if self.pc[k].get_id() != i:
-                    ok = False
-                    break
-        if not ok:
+        if s is None:
             s = mk_solver(150)
             ids = []
             self._ps = s
             self._ps_ids = ids
+            self._ps_asts = []      # the entries themselves: an id is only meaningful while its AST is alive
+        asts = self._ps_asts
+        # every path-condition entry sits in a scope of its own, so that entries retracted at the end (closed
+        # hypotheses) are popped instead of rebuilding the solver
+        n = len(self.pc)
+        k = 0
+        m = min(len(ids), n)
+        while k < m and self.pc[k].get_id() == ids[k]:
+            k += 1
+        if k < len(ids):
+            s.pop(len(ids) - k)
+            del ids[k:]
+            del asts[k:]
         for e in self.pc[len(ids):]:
+            s.push()
             if not has_quantifier(e):
                 s.add(e)
             ids.append(e.get_id())
+            asts.append(e)
         return s
 
     def oblige(self, name: str, goal):
@@ -1646,14 +1654,14 @@ class Interp:
             # an exception while evaluating a branch under its hypothesis is an exception of the
             # whole expression only if the hypothesis holds: decide it, then re-raise or drop the branch
             try:
-                a = self.with_assumption(c, lambda: self.ev(node.body, fr), check=True)
+                a = self.with_assumption(c, lambda: self.ev(node.body, fr), check=False)
             except Infeasible:
                 pass
             except PyRaise:
                 if self.decide(c):
                     raise
             try:
-                b = self.with_assumption(z3.Not(c), lambda: self.ev(node.orelse, fr), check=True)
+                b = self.with_assumption(z3.Not(c), lambda: self.ev(node.orelse, fr), check=False)
             except Infeasible:
                 pass
             except PyRaise:
